@@ -385,6 +385,11 @@ fn tame(r: &R, env: &BTreeMap<String, f64>) -> bool {
                 "asin" | "acos" | "atanh" => x.abs() < 0.999,
                 "acosh" => x > 1.001,
                 "tan" => x.cos().abs() > 1e-3,
+                // discontinuities: the sign of an exact zero (lost by the `0 * x` shortcut, which is
+                // right for real numbers) and rounding errors decide the branch there
+                "signum" => x.abs() > 1e-6,
+                "floor" | "ceil" | "trunc" | "fract" => (x - x.round()).abs() > 1e-6,
+                "round" => ((x - 0.5) - (x - 0.5).round()).abs() > 1e-6,
                 _ => true,
             };
             inner_ok && ok(eval(r, env))
@@ -397,6 +402,9 @@ fn tame(r: &R, env: &BTreeMap<String, f64>) -> bool {
             let inner_ok = match n.as_str() {
                 "/" => y.abs() > 1e-3,
                 "^" => x > 1e-3,
+                // branch cut of atan2(a, b): a = 0 and b < 0
+                "atan2" => x.abs() > 1e-6 || y > 1e-6,
+                "%" => y.abs() > 1e-3 && ((x / y) - (x / y).round()).abs() > 1e-6,
                 _ => true,
             };
             inner_ok && ok(eval(r, env))
